@@ -88,7 +88,12 @@ A("C20", "ptydrive", "exhaustive enumeration of event sequences x preview durati
   "All event sequences <= 2/3 over 11 events (moves, edits, toggle, refresh/toggle/change-preview, release, 600 ms, hook release) x 4 duration classes x 3 hook modes: last started preview == "
   "(item, query, selection); pane shows it; <= 1 alive; none after exit. Known finding D5.", "DESIGN.md section 2, C20",
   "cursor/query/selection follow the C09 model; quiescence = 1.2 s of stability past fzf's 500 ms grace timers")
-NOT_APPLICABLE.update({
-    "C14": "check not built yet in this round (Engine C robustness / exit-hygiene sweep planned, DESIGN.md section 2 C14)",
-    "C15": "check not built yet in this round (incremental == full redraw differential planned, DESIGN.md section 2 C15)",
-})
+A("C14", "ptydrive", "exhaustive enumeration of window sizes x option sets (robustness), of input byte strings (decoder), and of exit path x running child x instant (exit hygiene) on the real binary",
+  "44-98 window sizes from 1x1 x 78-540 option sets x adversarial input x a 17-action script with resizes; every byte string <= 3/4 over 16 decoder symbols; 145+ exit sessions: "
+  "{accept, abort, SIGTERM, SIGINT} x {nothing, preview, execute-silent, execute, reload, transform} x child class x instant (delays and held hook points): alive and answering, no panic, "
+  "termios and DEC modes restored, TMPDIR empty, no process left. Known finding D15.",
+  "DESIGN.md section 2, C14", "hang = no answer within 30 s confirmed 5x; SIGINT during execute belongs to the child (documented); emulator trusted")
+A("C15", "ptydrive", "exhaustive enumeration of action histories x layouts x sizes on the real binary: incremental redraw == forced full redraw (differential), plus a structural oracle against GET /",
+  "Histories <= 2/3 over 19 actions (moves, selection, typing, header/wrap/prompt/sort toggles, resize) x 24-36 configurations (3 layouts x sizes x plain/inline/border/header-lines).",
+  "DESIGN.md section 2, C15", "--no-scrollbar; ASCII items; emulator trusted; structural item-row checks are skipped while wrapping is on")
+
